@@ -204,12 +204,17 @@ class Final(_Proc):
     def configs(self, tier):
         # ... whatever state the script left the run-time switches in: checks off (ignore_errors(True), as
         # examples/sudoku.py leaves it), a region with a dead guard still open at sys.exit(0)
-        return [dict(autoprove=a, ie=i, open_guard=g) for a in (True, False) for i in (False, True) for g in (False, True)]
+        # ... and a separate keygen/prove/verify step requested on the command line (runtime.operation) while the
+        # backend in effect has no such step (only the libsnark backends define process_snark)
+        return [dict(autoprove=a, ie=i, open_guard=g) for a in (True, False) for i in (False, True) for g in (False, True)] + \
+               [dict(autoprove=a, ie=False, open_guard=False, operation=o) for a in (True, False) for o in ("prove", "keygen", "")]
 
     def setup(self, c, cfg):
         rt = c.rt
         rt.autoprove = cfg["autoprove"]
         rt._ignore_errors = cfg["ie"]
+        if "operation" in cfg:
+            rt.operation = cfg["operation"]
         if cfg["open_guard"]:
             G = c.operand("left_open")
             rt.guard = G
@@ -241,6 +246,8 @@ calls = []
 be.prove = lambda *a, **k: calls.append(1)
 rt.autoprove = cfg["autoprove"]
 rt._ignore_errors = cfg["ie"]
+if cfg.get("operation") is not None:
+    rt.operation = cfg["operation"]
 if cfg["open_guard"]:
     g = rt.PrivVal(0)
     rt.guard = g
@@ -253,9 +260,9 @@ except BaseException as e:
     out["outcome"] = "raise"; out["exception"] = type(e).__name__
 out["prove_calls"] = len(calls)
 out["expected_prove_calls"] = 1 if cfg["autoprove"] else 0
-out["confirmed"] = out["outcome"] == "return" and out["prove_calls"] != out["expected_prove_calls"]
+out["confirmed"] = (out["outcome"] == "return" and out["prove_calls"] != out["expected_prove_calls"]) if cfg["clause"].startswith("V.") else out["outcome"] == "raise"
 json.dump(out, open("out.json", "w"))
-''' % (REPO, json.dumps({k: cfg.get(k) for k in ("autoprove", "ie", "open_guard")}))
+''' % (REPO, json.dumps(dict({k: cfg.get(k) for k in ("autoprove", "ie", "open_guard", "operation")}, clause=ob["name"])))
         open(os.path.join(tmp, "probe.py"), "w").write(script)
         env = dict(os.environ)
         env.pop("PYSNARK_BACKEND", None)
@@ -267,4 +274,4 @@ json.dump(out, open("out.json", "w"))
         shutil.rmtree(tmp, ignore_errors=True)
 
 
-Final.native_replay = lambda self, ob, cfg: _final_replay(self, ob, cfg) if ob["name"] == "V.proves_iff_autoprove" else dict(confirmed=False, note="no native replay for this clause")
+Final.native_replay = lambda self, ob, cfg: _final_replay(self, ob, cfg) if ob["name"] == "V.proves_iff_autoprove" or ob["name"].startswith("R.unexpected_exception") else dict(confirmed=False, note="no native replay for this clause")
